@@ -68,7 +68,13 @@ pub struct PointCloud {
 impl PointCloud {
     pub(crate) fn vec_from_document(document: &Document) -> Result<Vec<Self>> {
         let mut pointclouds = Vec::new();
-        if let Some(data3d_node) = document.descendants().find(|n| xml::has_name(n, "data3D")) {
+        // Only a direct child of the root element is the list of point clouds, anything inside
+        // of other elements (for example from extensions) has a different meaning
+        if let Some(data3d_node) = document
+            .root_element()
+            .children()
+            .find(|n| xml::has_name(n, "data3D"))
+        {
             for n in data3d_node.children() {
                 if xml::has_name(&n, "vectorChild") && n.attribute("type") == Some("Structure") {
                     let pointcloud = Self::from_node(&n)?;
